@@ -38,9 +38,10 @@ Apply(e, s) ==
 Matches(e, r) == r.exc = e.exc /\ Observe(G, r.st.w, T.gkeys) = e.o
 
 Report(c, i, exp) == PrintT(<<"DIAG", ToJson([t |-> tid, l |-> l, c |-> c, i |-> i, exp |-> exp])>>)
+(* IF, not \/: inside an action TLC explores BOTH disjuncts of a disjunction *)
 DiagSeq(c, exp, obs) == IF Len(exp) # Len(obs) THEN Report(c, 0, exp)
-                        ELSE \A i \in DOMAIN exp : exp[i] = obs[i] \/ Report(c, i, exp[i])
-DiagOne(c, exp, obs) == exp = obs \/ Report(c, 0, exp)
+                        ELSE \A i \in DOMAIN exp : IF exp[i] = obs[i] THEN TRUE ELSE Report(c, i, exp[i])
+DiagOne(c, exp, obs) == IF exp = obs THEN TRUE ELSE Report(c, 0, exp)
 Diagnose(e, r) ==
     LET x == Observe(G, r.st.w, T.gkeys) IN
     /\ DiagOne("outcome", r.exc, e.exc)
@@ -54,7 +55,7 @@ Diagnose(e, r) ==
     /\ DiagSeq("gfi", x.gfi, e.o.gfi)
 
 Init == /\ tid \in 1..NT /\ l = 1
-        /\ TraceOK(T) \/ PrintT(<<"BADTRACE", tid, 0>>)
+        /\ IF TraceOK(T) THEN TRUE ELSE PrintT(<<"BADTRACE", tid, 0>>)
         /\ G = Complete(T.g)
         /\ st = NewState(T.g)
 
